@@ -483,6 +483,9 @@ def run(ck, tier):
     from .. import ownership as _own2
     ck.rule('R7', 'no unsound memoisation (a caching decorator on a method, or on a function that returns a mutable container) in the modules this property rests on')
     ck.guard(_own2.rule_no_unsafe_memo, ck, cx, 'R7', ('pymodbus.device', 'pymodbus.mei_message'), 'the objects returned are those cached for another request or identity')
+    from ..share import import_findings as _imp20
+    ck.rule('R8', 'a completely filled page reaches the client: the TCP receiver accepts every legal MBAP length 2..254 (a 253-byte PDU announces 254) (shared with C03 R2)')
+    _imp20(ck, 'C03', 'R8', ('R2',), 'a page that uses the whole PDU is dropped by the receiving framer: the client never sees those objects and the chain ends there', detail_prefixes=('mbap-length',))
     return cx.idx
 
 
